@@ -82,6 +82,8 @@ type funcContract struct {
 	props      []string
 	mode       string
 	inline     bool
+	summary    bool   // closure: calls use this contract instead of inlining the body
+	selfVar    string // closure: the captured variable that holds the closure itself (recursion)
 	wrap64     bool
 	localAnchors map[string]localAnchor // name -> (type, ordinal among named locals of that type): survives renames
 	pure       bool
@@ -270,6 +272,10 @@ func (db *specDB) loadSpecFile(path string, pkgName string, isGo bool) error {
 			cur.wrap64 = true
 		case "inline":
 			cur.inline = true
+		case "summary":
+			cur.summary = true
+		case "self":
+			cur.selfVar = strings.TrimSpace(rest)
 		case "pure":
 			cur.pure = true
 		case "fresh":
